@@ -503,6 +503,32 @@ pub mod verif {
     #[derive(Clone)]
     pub struct Wq(pub(crate) WakerQueue);
 
+    impl Wq {
+        /// What `ServerInner::handle_cmd` does for pause / resume / stop on the accept side.
+        pub fn wake(&self, cmd: Cmd) {
+            self.0.wake(match cmd {
+                Cmd::Pause => WakerInterest::Pause,
+                Cmd::Resume => WakerInterest::Resume,
+                Cmd::Stop => WakerInterest::Stop,
+            })
+        }
+
+        /// What `ServerInner::handle_cmd(WorkerFaulted)` does once the new worker is up.
+        pub fn push_worker(&self, handle: AcceptHandle) {
+            self.0.wake(WakerInterest::Worker(handle.0))
+        }
+
+        /// Number of interests waiting in the queue.
+        pub fn len(&self) -> usize {
+            self.0.guard().len()
+        }
+    }
+
+    /// Arrange for the next `accept()` on the listener with descriptor `fd` to fail with `err`.
+    pub fn inject_accept_error_fd(fd: i32, err: io::Error) {
+        crate::socket::verif::inject(fd, err);
+    }
+
     /// Opaque wrapper of the (crate-private) listener enum.
     pub struct Listener(pub(crate) MioListener);
 
@@ -639,6 +665,14 @@ pub mod verif {
                 MioListener::Uds(ref l) => l.as_raw_fd(),
             };
             crate::socket::verif::inject(fd, err);
+        }
+
+        /// Raw descriptor of listener `token` (key for `inject_accept_error_fd`).
+        pub fn listener_fd(&self, token: usize) -> i32 {
+            match self.sockets[token].lst {
+                MioListener::Tcp(ref l) => l.as_raw_fd(),
+                MioListener::Uds(ref l) => l.as_raw_fd(),
+            }
         }
 
         // read-only views
